@@ -89,7 +89,7 @@ Definition run_loads (inp : list Z) : list Z :=
   | kind :: a :: b :: fac :: r =>
       let '(bs, _) := get_lp r in
       let sc := {| py2str_as_py3str := negb (a =? 0); py3str_as_py2str := negb (b =? 0) |} in
-      match (if kind =? 0 then loads_r sc bs else load_internal sc (negb (fac =? 0)) bs) with
+      match (if kind =? 0 then loads_r MAXALLOC sc bs else load_internal MAXALLOC sc (negb (fac =? 0)) bs) with
       | Ok (v, rest) => 0 :: put_value v ++ [Z.of_nat (length rest)]
       | Err e => [1; exn_code e]
       end
